@@ -31,27 +31,34 @@ MANIFEST = dict(
          "compute_switch_flips, compare_block, longest-block agreement as coded and as repaired), all block lengths: "
          "switches = s + 2f, zero on identical input, invariance under swapping the haplotypes of either phasing, Hamming = "
          "minimum over correspondences = min(d, n-d), different genotypes = multiset definition, switch errors = changes of "
-         "the forced correspondence, agreement vector has exactly `hamming` zeros (repaired code; Lean witness that the "
-         "current code violates it, F3). Polyploid calculator (switchflipcalculator.cpp, model incl. its pruning), ploidy <= 4, "
-         "all lengths and costs: cost = brute-force minimum over all sequences of haplotype correspondences "
-         "(poly_dp_unpruned_optimal, poly_prune_sound, poly_dp_optimal) and every pair the back-tracking may return has "
-         "that cost. Joint blocks, totals, BED/TSV content, multiway histogram: executable Lean model, tied to the working "
-         "tree by in-process calls and real CLI runs; definitions recomputed independently by brute force on every run",
+         "the forced correspondence, agreement vector has exactly `hamming` zeros. Polyploid calculator "
+         "(switchflipcalculator.cpp, model incl. its pruning), ploidy <= 4, all lengths and costs: cost = brute-force minimum "
+         "over all sequences of haplotype correspondences; every (switches, flips) pair the back-tracking may return is REALISED "
+         "by such a sequence and is a member of the brute-force set of optimal pairs (poly_reported_pair_realised); with the "
+         "costs compare_block uses the pair is unique and the lexicographic minimum of (switches+flips, flips) "
+         "(poly_fixed_split_unique_lexmin); the optimum and the set of co-optimal pairs are invariant under listing the "
+         "haplotypes of either phasing in any order (poly_optimum_perm_invariant) and so is everything compare_block reports "
+         "for ploidy 3, 4 (poly_perm_invariant). Glue of run_compare (sample selection, reader filters incl. --only-snvs, "
+         "variant identity, common chromosomes, all pairs, BED order, multiway table): executable Lean model `c11.run`, tied "
+         "to the working tree by real CLI runs; with fixes/F46.patch every assessed diploid block has the shape the diploid "
+         "theorems assume (assessed_diploid_blocks_are_complementary)",
     design_ref="DESIGN.md §5 C11, §6 F3",
     note="trusted: Lean kernel, axioms ⊆ {propext, Classical.choice, Quot.sound}; the hand-written model (correspondence is "
-         "differential testing: quick ≈ 5 400 cases incl. ≈ 135 CLI runs, thorough ≈ 70 000 incl. ≈ 1 800 CLI runs). Not proved "
-         "in Lean: that a returned polyploid (switches, flips) pair is realised by a sequence (only its cost), ploidy > 4, "
-         "relabelling invariance for polyploid input, the model of `compare`'s block intersection — these are checked against "
-         "brute-force definitions and by metamorphic re-runs on every run. The unchanged tree violates the property "
-         "(F3 and four new findings FC11a-d, each with a proposed patch under fixes/)",
+         "differential testing: quick ≈ 5 500 cases incl. ≈ 135 + ≈ 100 CLI runs, thorough ≈ 70 000 incl. ≈ 1 800 + ≈ 1 000). "
+         "Not proved in Lean: ploidy > 4; the joint-block / totals part of the model of `compare` against a spec (checked "
+         "against brute-force definitions on every run). Not modelled: HP-tag phasing, --names validation, plots, the printed "
+         "report, allele indices >= 10 (two characters in the haplotype strings). Open findings on the unchanged tree: F45 "
+         "(KeyError on a multi-allelic diploid call), F46 (diploid numbers derived from the first haplotype only), F47 "
+         "(hash-seed dependent sample column of --tsv-multiway), each with a patch under fixes/",
     technique="Lean 4 proofs about a faithful functional model + differential correspondence (in-process and CLI) + "
               "brute-force definition oracle + metamorphic relabelling",
 )
 ASSUMPTIONS = [
-    "alleles are single digits; the CLI generator writes biallelic het/hom GT with PS tags (no HP tags, no multi-ALT records); "
-    "multi-allelic haplotype strings are exercised only in-process (correspondence, not the definition oracle)",
+    "alleles are single digits (at most 3 ALT alleles are generated); HP tags are not generated; VCFs are position-sorted",
     "float sums of k/ploidy per block are compared with tolerance 1e-9 to the exact rational",
     "Python asserts are enabled (the model maps AssertionError/KeyError/ZeroDivisionError to `error`)",
+    "glue stream: for diploid calls with an allele >= 2 two readings of 'assessed' are admitted: every phased call is "
+    "(then the numbers must equal the definitions: F46), or such calls are not assessed at all (fixes/F46.patch)",
 ]
 
 K_F3 = "F3-longest-block-agreement"
@@ -535,7 +542,7 @@ def check_cli(ctx, scen, d, n_relabel, replay_relabelled=None):
     faithful_needed = []
     for (key, req), ans in zip(model_reqs, answers):
         row = res["rows"][key]
-        if not pair_model_equal(row, res, key, ans, p):
+        if not pair_model_equal(row, res, key, ans, p, exact_split=True):     # repaired code: the polyploid split is unique
             faithful_needed.append((key, req))
     if faithful_needed:
         reqs = [dict(r, fixA=False, fixB=False, fix3=False) for _, r in faithful_needed]
